@@ -136,7 +136,7 @@ def run(c):
         """validate each dsl rule in Coq; returns {id: bool}"""
         dsl = [{"id": x["id"], "rule": x["rule"]} for x in cases if x["stream"] == "dsl" and x.get("rule") and x["obs"]["kind"] in ("ok", "error")]
         # stream group: every rule of the file is judged from its own description (id = 1000 * case + position); equal descriptions once
-        memo = {}
+        memo, group_alias = {}, {}   # (local: the case numbers repeat from one round of the run to the next)
         for x in cases:
             if x["stream"] == "group" and x["obs"]["kind"] in ("ok", "error") and not x.get("no_model"):
                 for j, r in enumerate(r for g in (x.get("groups") or []) for r in g["rules"]):
@@ -196,7 +196,6 @@ def run(c):
 
     probed, control = set(), set()
     seen_errors = set()
-    group_alias = {}
 
     def unbound_of(r):
         refs = [v for a in r["atoms"] for v in (a.get("vars") or [])] + ([r["at"]] if r["at"] else [])
